@@ -124,6 +124,9 @@ def arch_yaml(w, keep=None) -> str:
             out.append("    skip_initial_output_write: %s" % ("True" if w["skip"][c] else "False"))
         else:
             out.append("    direction: {%s}" % ", ".join("%s: %s" % (t, w["dir"][c][t]) for t in w["tensors"]))
+        for f in w.get("fanout", []):
+            if f["comp"] == c:
+                out += _spatial_lines(w, f)
         out.append("    leak_power: %s" % E(cc["leak"]))
         out.append("    area: 0")
         if keep and c in keep:
@@ -148,20 +151,26 @@ def arch_yaml(w, keep=None) -> str:
                 ent.append("values_per_action: {%s}" % ", ".join("%s: %s" % (t, _num(_fr(v))) for t, v in av.items()))
             out.append("    - {%s}" % ", ".join(ent))
     for f in w.get("fanout", []):
-        out += ["  - !Container", "    name: %s" % f["comp"], "    spatial:", "    - name: %s" % f["dim"],
-                "      fanout: %d" % f["n"]]
-        lbs = [c for c in w.get("lbs", []) if c["comp"] == f["comp"] and c["dim"] == f["dim"]]
-        if lbs:
-            out.append("      loop_bounds:")
-            for c in lbs:
-                out += ["      - expression: %s" % " | ".join(c["vars"]),
-                        "        operator: %s" % (("product" if c["product"] else "") + c["op"]),
-                        "        value: %d" % c["value"]]
+        if f["comp"] in w["level"]:
+            continue    # a fanout of a memory is written inside that memory's node (see _spatial_lines)
+        out += ["  - !Container", "    name: %s" % f["comp"]] + _spatial_lines(w, f)
     out += ["  - !Compute", "    name: MAC",
             "    skip_initial_output_write: %s" % ("True" if w["cskip"] else "False"),
             "    leak_power: %s" % E(w["mac"]["leak"]), "    area: 0", "    actions:",
             "    - {name: compute, energy: %s, throughput: %s}" % (E(w["mac"]["energy"]), T(w["mac"]["tput"]))]
     return "\n".join(out) + "\n"
+
+
+def _spatial_lines(w, f):
+    out = ["    spatial:", "    - name: %s" % f["dim"], "      fanout: %d" % f["n"]]
+    lbs = [c for c in w.get("lbs", []) if c["comp"] == f["comp"] and c["dim"] == f["dim"]]
+    if lbs:
+        out.append("      loop_bounds:")
+        for c in lbs:
+            out += ["      - expression: %s" % " | ".join(c["vars"]),
+                    "        operator: '%s'" % (("product" if c["product"] else "") + c["op"]),
+                    "        value: %d" % c["value"]]
+    return out
 
 
 def workload_yaml(w) -> str:
